@@ -43,7 +43,7 @@ ASSUMPTIONS = list(K.ASSUMPTIONS[1:]) + [
     'the legal extended data types of every channel class are a subset of {EXTENDED_DATA_STDERR} (class constants, '
     'channel.py 91-92, 1125, 1497) - needed only for the debug-log lookup _data_type_names[datatype]',
     'OverflowError from UInt32(adjust) in _deliver_data is permitted (only with >= 2^32 - window buffered bytes, '
-    'see C08 finding F4); AssertionError from `assert self._session is not None` only on a cleaned-up channel',
+    'see C08 finding F4)',
     'add_channel: termination of the search loop is not proved for a full table (2^32 channels)',
     'writelines: binary channels only (the str variant differs in the join constant)',
     'SCOPE: the C07 claim ends where the channel calls session.data_received / session.eof_received; the buffering '
@@ -365,6 +365,10 @@ def no_exc(c):
 FRB = 'SSHChannel._flush_recv_buf'
 
 
+def has_session(c):
+    return z3.Not(c.is_none(c.oldv('_session')))
+
+
 def eof_now(c):
     return z3.And(c.old('_recv_state') == sv('eof_pending'), c.new('_recv_state') == sv('eof'))
 
@@ -397,9 +401,15 @@ flush_recv_buf = Spec(
         ('delivered-in-fifo-order-nothing-lost-or-duplicated', lambda c: z3.Or(
             c.is_none(c.oldv('_session')), stream(c) == stream(c, new=False))),
         # EOF last: only with an empty buffer, only if the peer's EOF is pending, at most once
+        # ... reported exactly when it is pending, the buffer has drained AND a session is still attached; on a
+        # channel that was already cleaned up (no session) nothing is reported and no EOF echo is sent
         ('eof-reported-only-when-pending-and-drained', lambda c: z3.And(
-            c.new('ghost_eof_reports') == c.old('ghost_eof_reports') + z3.If(eof_now(c), 1, 0),
+            c.new('ghost_eof_reports') == c.old('ghost_eof_reports') + z3.If(
+                z3.And(eof_now(c), has_session(c)), 1, 0),
             z3.Implies(eof_now(c), z3.Length(c.new('_recv_buf')) == 0))),
+        ('no-session-no-report-no-echo', lambda c: z3.Implies(
+            z3.Not(has_session(c)),
+            z3.And(c.new('ghost_eof_reports') == c.old('ghost_eof_reports'), unchanged(c, *SEND_FIELDS)))),
         ('eof-report-count-is-the-number-of-eof_received-calls', local_only(FRB, lambda c: z3.And(
             z3.BoolVal(len(c.events('eof_received')) <= 1),
             c.new('ghost_eof_reports') == c.old('ghost_eof_reports') + len(c.events('eof_received'))))),
@@ -439,9 +449,7 @@ flush_recv_buf = Spec(
             c.new('_recv_state') == sv('close_pending'), z3.Length(c.new('_recv_buf')) > 0)),
         ('class-inv', lambda c: recv_inv(c)),
     ],
-    raises={'ProtocolError': True, 'OverflowError': True,
-            # `assert self._session is not None`: only on a channel that was already cleaned up
-            'AssertionError': lambda c: c.is_none(c.oldv('_session'))})
+    raises={'ProtocolError': True, 'OverflowError': True})
 
 
 # ================================================================== send side
@@ -666,7 +674,7 @@ def unchanged(c, *fields):
 
 RECV_GHOSTS = ('_recv_buf', '_recv_state', 'ghost_delivered', 'ghost_eof_reports', 'ghost_cleanups')
 FLUSH_REQ = lambda c: z3.And(decoder_inv(c), paused_inv(c, new=False), send_inv(c, new=False))
-FLUSH_RAISES = {'OverflowError': True, 'AssertionError': lambda c: c.is_none(c.oldv('_session'))}
+FLUSH_RAISES = {'OverflowError': True}
 
 process_eof = Spec(
     PROP, 'channel', 'SSHChannel._process_eof', self_class='SSHChannel', params=PKT_PARAMS,
@@ -681,7 +689,7 @@ process_eof = Spec(
         # EOF last: reported at once if nothing is buffered, else left pending behind the buffered data
         ('eof-reported-now-or-pending-behind-buffered-data', lambda c: z3.Or(
             z3.And(c.new('_recv_state') == sv('eof'), z3.Length(c.new('_recv_buf')) == 0,
-                   c.new('ghost_eof_reports') == c.old('ghost_eof_reports') + 1),
+                   c.new('ghost_eof_reports') == c.old('ghost_eof_reports') + z3.If(has_session(c), 1, 0)),
             z3.And(c.new('_recv_state') == sv('eof_pending'),
                    c.new('ghost_eof_reports') == c.old('ghost_eof_reports'),
                    z3.Or(z3.Length(c.new('_recv_buf')) > 0, newp(c) == STARTING)))),
